@@ -330,8 +330,17 @@ impl<F: PathFetcher> PathSet<F> {
     }
 
     pub fn next_maintain(&self, now: SystemTime) -> Duration {
+        let mut next_tick =
+            std::cmp::min(self.internal.next_refetch, self.internal.next_idle_check);
+
+        // The active path has to be replaced when it expires. That can be before the next
+        // refetch, e.g. while failed fetches are backed off.
+        if let Some(active_expiry) = self.active_path_expiry() {
+            next_tick = next_tick.min(active_expiry);
+        }
+
         // If time is in the past, tick immediately
-        std::cmp::min(self.internal.next_refetch, self.internal.next_idle_check)
+        next_tick
             .duration_since(now)
             .unwrap_or_else(|_| Duration::from_secs(0))
     }
@@ -350,6 +359,15 @@ impl<F: PathFetcher> PathSet<F> {
 
         if now >= self.internal.next_refetch {
             self.fetch_and_update(now, manager).await;
+        } else if self
+            .active_path_expiry()
+            .is_some_and(|expiry| now >= expiry)
+        {
+            // The active path expired between two refetches. Switch to the best cached path
+            // that is still usable, instead of leaving senders without a path until the next
+            // refetch.
+            self.rerank(now, manager);
+            self.maybe_update_active_path(now, manager);
         }
 
         None
@@ -484,6 +502,13 @@ impl<F: PathFetcher> PathSet<F> {
         }
 
         tracing::debug!("Completed path refetch and update");
+    }
+
+    /// Returns the expiry time of the active path, if there is one.
+    fn active_path_expiry(&self) -> Option<SystemTime> {
+        let expiration = self.shared.active_path.load().as_ref()?.0.expiration()?;
+
+        Some(SystemTime::UNIX_EPOCH + Duration::from_secs(u64::from(expiration)))
     }
 
     /// Returns the earliest expiry time among the cached paths.
